@@ -77,6 +77,19 @@ def gen_cases(tier):
                 "cfgs": [cfg.describe()],
                 "history": [["get", 0, "sys"], ["refresh", 0], ["reply", 0, "ok", 3], ["get_many", 0, "pair"], ["getbulk", 0, "sys", 5]],
             }
+    # a refused key installation must leave the keys the session had
+    for auth, priv in ((1, 0), (2, 0), (1, 1), (2, 2), (2, 1)):
+        for disc in (False, True):
+            cfg = Cfg("v3", auth=auth, priv=priv, discover=disc)
+            for how in ("authlen", "privlen", "privempty", "privalg"):
+                if not priv and how != "authlen":
+                    continue
+                pre = [["discover", 0, 0]] if disc else []
+                yield {
+                    "class": "refused-set-keys",
+                    "cfgs": [cfg.describe()],
+                    "history": pre + [["get", 0, "sys"], ["set_keys_bad", 0, how], ["get", 0, "sys"], ["refresh", 0], ["set_keys_bad", 0, how], ["get_many", 0, "pair"]],
+                }
     other = Cfg("v2c")
     for auth, priv in ((1, 0), (2, 0), (1, 1), (2, 2), (2, 1), (0, 0)):
         for kt in kts:
